@@ -76,8 +76,11 @@ def failing_iter(ch, spec):
 
 def baseline_of(spec):
     alias = spec.p.get("alias")
-    srcs = [SrcPlan(p.name, p.items, "sync_iter" if ((alias and n == alias[0]) or p.iter_fault is not None) else "list",
-                    iter_fault=p.iter_fault)
+    # an iterable that cannot be opened keeps its flavour in the baseline: *when* it is opened differs between sync
+    # (lazily adapted) and async (eager) iterables by design, so the comparison varies the flavours of everything else
+    srcs = [SrcPlan(p.name, p.items, p.flavour if p.iter_fault is not None else
+                    ("sync_iter" if (alias and n == alias[0]) else "list"),
+                    p.suspend if p.iter_fault is not None else (), iter_fault=p.iter_fault)
             for n, p in enumerate(spec.srcs)]
     # a class used as the callable is a synchronous callable giving instances: it has no "async twin", both runs use it
     fns = [FnPlan(p.name, p.kind, p.param, "cls_async_call" if p.flavour == "cls_async_call" else "def")
@@ -357,18 +360,14 @@ def execute_tools(st, ctx, out):
         pos = first_diff(a, b)
         failing = [p for p in spec.srcs if p.iter_fault is not None]
         if failing:
-            # an iterable that cannot be opened: sync iterables are adapted lazily, async ones opened eagerly, so
-            # *when* (and whether) the failure surfaces is not judged - only that it surfaces as what was raised
+            # (the failing iterable has the same flavour in both runs, so both open it at the same moment)
             out.probes["iterable_fails_to_open"] = 1
-            pos = None
             opened = [any(e[0] == "iter_raise" for e in r.log) for r in (rb, rf)]
-            if all(opened):
+            if all(opened) and pos is None:
                 want = ("end", "exc", failing[0].iter_fault.__name__)
-                for which, vals in (("baseline", a), ("flavoured", b)):
-                    if not vals or vals[-1] != want:
-                        out.violate("C03.result_depends_on_flavour", (tool, "open_failure_" + which),
-                                    dict(describe(), expected_ending=repr(want)))
-                        break
+                if not b or b[-1] != want:
+                    out.violate("C03.result_depends_on_flavour", (tool, "open_failure_replaced"),
+                                dict(describe(), expected_ending=repr(want)))
         if pos is not None:
             ea = a[pos] if pos < len(a) else None
             eb = b[pos] if pos < len(b) else None
